@@ -115,7 +115,8 @@ type Client struct {
 	registeredTopics     map[string]uint16
 	registeredTopicsLock sync.RWMutex
 	messageHandlers      *messageHandlers
-	transactions         *transactions.TransactionStore
+	transactions         *transactions.TransactionStore // exchanges started by the client
+	brokerTransactions   *transactions.TransactionStore // exchanges started by the gateway (its own MessageIDs)
 	msgID                *util.IDSequence
 	conn                 net.Conn
 	state                *util.ClientState
@@ -140,6 +141,8 @@ func NewClient(log util.Logger, cfg *ClientConfig) *Client {
 		stateChangeCh:    make(chan util.ClientState, 1),
 		log:              log,
 		msgID:            util.NewIDSequence(pkts.MinPacketID, pkts.MaxPacketID),
+
+		brokerTransactions: transactions.NewTransactionStore(),
 	}
 }
 
